@@ -699,3 +699,9 @@ def replay(ctx: Ctx, payload) -> Tuple[bool, str]:
             return False, f"real node raised {type(e).__name__}: {e}"
         return True, "script runs"
     return True, "unknown kind"
+
+
+# ------------------------------------------------------------------------------------------------
+from . import _compose, c14_chain  # noqa: E402
+
+_compose.extend(globals(), [_compose.Part("chain", c14_chain.run, c14_chain.replay)])
